@@ -47,7 +47,7 @@ func (matcher *requestResponseMatcher) emitEvent(isRequest bool, ident string, m
 }
 
 func (matcher *requestResponseMatcher) registerRequest(ident string, method string, request interface{}, captureTime time.Time, captureSize int) *api.OutputChannelItem {
-	verifhook.Yield("match.req.pre")
+	verifhook.Yield("amqp.match.req.pre")
 	requestAMQPMessage := api.GenericMessage{
 		IsRequest:   true,
 		CaptureTime: captureTime,
@@ -70,13 +70,13 @@ func (matcher *requestResponseMatcher) registerRequest(ident string, method stri
 		return matcher.preparePair(&requestAMQPMessage, responseAMQPMessage)
 	}
 
-	verifhook.Yield("match.req.mid")
+	verifhook.Yield("amqp.match.req.mid")
 	matcher.openMessagesMap.Store(ident, &requestAMQPMessage)
 	return nil
 }
 
 func (matcher *requestResponseMatcher) registerResponse(ident string, method string, response interface{}, captureTime time.Time, captureSize int) *api.OutputChannelItem {
-	verifhook.Yield("match.res.pre")
+	verifhook.Yield("amqp.match.res.pre")
 	responseAMQPMessage := api.GenericMessage{
 		IsRequest:   false,
 		CaptureTime: captureTime,
@@ -99,7 +99,7 @@ func (matcher *requestResponseMatcher) registerResponse(ident string, method str
 		return matcher.preparePair(requestAMQPMessage, &responseAMQPMessage)
 	}
 
-	verifhook.Yield("match.res.mid")
+	verifhook.Yield("amqp.match.res.mid")
 	matcher.openMessagesMap.Store(ident, &responseAMQPMessage)
 	return nil
 }
